@@ -50,3 +50,72 @@ def abstract(ret='str', heap=True):
         fn._pyvc_abstract = (fn.__name__, ret, heap)
         return fn
     return deco
+
+
+# ------------------------------------------------------------------------------------------ regular languages in specs
+class Rx:
+    """A regular language written with combinators in a contract file (module level), independently of any
+    pattern text in /repo.  `matches(s, rx)` is its membership test: symbolically InRe(s, rx.z3()), natively
+    re.fullmatch of the equivalent Python pattern."""
+    def __init__(self, kind, *args):
+        self.kind, self.args = kind, args
+
+    def z3(self):
+        k, a = self.kind, self.args
+        sv = z3.StringVal
+        if k == 'lit':
+            return z3.Re(sv(a[0]))
+        if k == 'cls':
+            parts = [z3.Range(sv(x[0]), sv(x[-1])) if len(x) == 3 else z3.Re(sv(x)) for x in a]
+            return parts[0] if len(parts) == 1 else z3.Union(*parts)
+        if k == 'any':
+            return z3.AllChar(z3.ReSort(z3.StringSort()))
+        if k == 'seq':
+            return z3.Concat(*[x.z3() for x in a])
+        if k == 'alt':
+            return z3.Union(*[x.z3() for x in a])
+        if k == 'plus':
+            return z3.Plus(a[0].z3())
+        if k == 'star':
+            return z3.Star(a[0].z3())
+        if k == 'opt':
+            return z3.Option(a[0].z3())
+        raise ValueError(k)
+
+    def py(self):
+        import re
+        k, a = self.kind, self.args
+        if k == 'lit':
+            return re.escape(a[0])
+        if k == 'cls':
+            return '[' + ''.join((re.escape(x[0]) + '-' + re.escape(x[-1])) if len(x) == 3 else re.escape(x) for x in a) + ']'
+        if k == 'any':
+            return r'[\s\S]'
+        if k == 'seq':
+            return ''.join('(?:' + x.py() + ')' for x in a)
+        if k == 'alt':
+            return '|'.join('(?:' + x.py() + ')' for x in a)
+        return '(?:' + a[0].py() + ')' + {'plus': '+', 'star': '*', 'opt': '?'}[k]
+
+
+def rx_lit(s): return Rx('lit', s)
+def rx_cls(*items): return Rx('cls', *items)          # items: 'a-z' ranges or single characters
+def rx_any(): return Rx('any')
+def rx_seq(*xs): return Rx('seq', *xs)
+def rx_alt(*xs): return Rx('alt', *xs)
+def rx_plus(x): return Rx('plus', x)
+def rx_star(x): return Rx('star', x)
+def rx_opt(x): return Rx('opt', x)
+
+
+def matches(s, rx):
+    import re
+    return re.fullmatch(rx.py(), s) is not None
+
+
+@_B.builtin(matches)
+def _matches(ip, args, kw, fr):
+    rx = args[1]
+    if rx.k != 'const' or not isinstance(rx.py, Rx):
+        raise Unsupported('matches(): the language must be a module-level Rx constant')
+    return mk_bool(z3.InRe(ip.as_str(args[0]), rx.py.z3()))
